@@ -760,6 +760,7 @@ NP = {
     "numpy.matmul": np_matmul, "numpy.dot": np_dot, "numpy.where": np_where, "numpy.delete": np_delete,
     "numpy.allclose": np_allclose, "numpy.array_equal": np_array_equal, "numpy.copy": np_copy,
     "numpy.isscalar": np_isscalar, "numpy.linalg.cholesky": np_cholesky, "numpy.linalg.det": np_det,
+    "numpy.real": (lambda ex, st, args, kwargs: args[0]),
     "numpy.random.normal": np_random_normal, "numpy.linalg.inv": np_inv, "scipy.linalg.sqrtm": sp_sqrtm,
 }
 
